@@ -129,7 +129,7 @@ class G:
                 items = []
                 newfr = []
                 for (n0, q) in chosen:
-                    if r.random() < 0.25:
+                    if r.random() < 0.25 and not self.safe:
                         nn = self.name()
                         items.append(item(col(n0, q), nn)); newfr.append((nn, ""))
                     elif q:
@@ -139,7 +139,10 @@ class G:
                         items.append(item(col(n0, q))); newfr.append((n0, ""))
                 if r.random() < 0.5:
                     nn = self.name()
-                    items.append(item(self.num(fr), nn)); newfr.append((nn, ""))
+                    e = self.num(fr)
+                    if self.safe and e["t"] in ("col", "lit"):
+                        e = bin_("+", e, lit(1))
+                    items.append(item(e, nn)); newfr.append((nn, ""))
                 steps.append(select(*items)); fr = newfr
             elif x < 0.30:
                 nn = self.newname(fr)
